@@ -33,7 +33,9 @@ Proof.
 Qed.
 Lemma add_files_nopanic t li m : add_files t li m <> Panic.
 Proof.
-  unfold add_files, add_wild. destruct (li_wild li); [|apply add_single_nopanic].
+  unfold add_files, add_wild, add_src. destruct (li_src li) as [s|].
+  { destruct (li_wild li); [discriminate|]. destruct (src_lstat t s); discriminate. }
+  destruct (li_wild li); [|apply add_single_nopanic].
   destruct (targets_wild t li); [discriminate|apply add_all_nopanic].
 Qed.
 Lemma run_op_nopanic t o m : run_op t o m <> Panic.
@@ -61,7 +63,7 @@ Qed.
 Lemma add_vdb_nopanic t ds : forall m, add_vdb t ds m <> Panic.
 Proof.
   induction ds as [|d r IH]; intros m; cbn [add_vdb]; [discriminate|].
-  pose proof (add_files_nopanic t (li_vdb d) m) as H. unfold add_files in H. cbn [li_wild li_vdb] in H.
+  pose proof (add_files_nopanic t (li_vdb d) m) as H. unfold add_files in H. cbn [li_wild li_src li_vdb] in H.
   destruct (add_wild t (li_vdb d) m); first [congruence|apply IH].
 Qed.
 Lemma extend_dev_nopanic t ls : forall m, extend_dev t ls m <> Panic.
@@ -89,8 +91,8 @@ Proof.
   pose proof (run_ops_nopanic (i_tree i) magic_ops m4). destruct (run_ops (i_tree i) magic_ops m4) as [m5| |]; try congruence.
   pose proof (run_ops_nopanic (i_tree i) stddir_ops (exclude (unstaged all m1) m5)).
   destruct (run_ops (i_tree i) stddir_ops (exclude (unstaged all m1) m5)) as [m7| |]; try congruence.
-  pose proof (run_ops_nopanic (i_tree i) (script_ops (i_script i)) (add_missing_dirs m7)).
-  destruct (run_ops (i_tree i) (script_ops (i_script i)) (add_missing_dirs m7)); first [congruence|discriminate].
+  pose proof (run_ops_nopanic (i_tree i) (user_script i) (add_missing_dirs m7)).
+  destruct (run_ops (i_tree i) (user_script i) (add_missing_dirs m7)); first [congruence|discriminate].
 Qed.
 Theorem stage_list_nopanic i : stage_list i <> Panic.
 Proof. unfold stage_list. pose proof (stage_map_nopanic i). destruct (stage_map i); congruence. Qed.
@@ -233,18 +235,37 @@ Proof.
   - intros nm Hin. exact (G _ Hin eq_refl).
 Qed.
 
+(* looking up the outside sources changes nothing but the src field of a line *)
+Lemma resolve_op_add ext o li : resolve_op ext o = OAdd li ->
+  exists li0, o = OAdd li0 /\ li_name li = li_name li0 /\ li_wild li = li_wild li0.
+Proof.
+  destruct o as [li0|nm w| |]; cbn [resolve_op]; try discriminate.
+  destruct (li_src li0); intros H; injection H as <-; exists li0; auto.
+Qed.
+Lemma resolve_op_omit ext o nm w : resolve_op ext o = OOmit nm w -> o = OOmit nm w.
+Proof.
+  destruct o as [li0|nm0 w0| |]; cbn [resolve_op]; try discriminate; [destruct (li_src li0); discriminate|auto].
+Qed.
+Lemma resolved_script_facts ext ops : script_facts ops -> script_facts (map (resolve_op ext) ops).
+Proof.
+  intros [Ha Ho]. constructor.
+  - intros li Hin Hw. apply in_map_iff in Hin as (o & E & Hin). apply resolve_op_add in E as (li0 & -> & En & Ew).
+    rewrite En. apply Ha; [exact Hin|now rewrite <- Ew].
+  - intros nm Hin. apply in_map_iff in Hin as (o & E & Hin). apply resolve_op_omit in E as ->. now apply Ho.
+Qed.
+
 Record wf_facts (c : case) : Prop := MkWF {
   wfa_tree : Forall good (keys (i_tree (c_in c)));
   wfa_closed : tree_closed (i_tree (c_in c));
   wfa_pkgs : pkg_facts (i_tree (c_in c)) (i_pkgs (c_in c));
-  wfa_script : script_facts (script_ops (i_script (c_in c))) }.
+  wfa_script : script_facts (user_script (c_in c)) }.
 Lemma wf_wf_facts c : wf c = true -> wf_facts c.
 Proof.
   unfold wf. intros H. cbv zeta in H.
-  apply andb_true_iff in H as [H _]. apply andb_true_iff in H as [H Hs]. apply andb_true_iff in H as [H Hp].
+  apply andb_true_iff in H as [H _]. apply andb_true_iff in H as [H _]. apply andb_true_iff in H as [H Hs]. apply andb_true_iff in H as [H Hp].
   apply andb_true_iff in H as [_ Ht]. destruct (wf_tree_facts _ Ht). constructor; auto.
   - now apply wf_pkgs_facts.
-  - eapply wf_script_facts; eauto.
+  - unfold user_script. apply resolved_script_facts. eapply wf_script_facts; eauto.
 Qed.
 
 Lemma wf_good_input c : wf_facts c -> good_input (c_in c).
@@ -318,7 +339,7 @@ Hypothesis E3 : (if i_novdb i then Ok m2 else add_vdb t (map p_dir (selected (i_
 Hypothesis E4 : (if i_emptydev i then Ok m3 else bind (run_ops t dops m3) (extend_dev t xl)) = Ok m4.
 Hypothesis E5 : run_ops t mops m4 = Ok m5.
 Hypothesis E7 : run_ops t sops (exclude (unstaged all m1) m5) = Ok m7.
-Hypothesis E9 : run_ops t (script_ops (i_script i)) (add_missing_dirs m7) = Ok m9.
+Hypothesis E9 : run_ops t (user_script i) (add_missing_dirs m7) = Ok m9.
 Hypothesis G7 : Forall good (keys m7).
 Hypothesis G9 : Forall good (keys m9).
 Let mf := add_missing_dirs m9.
@@ -327,7 +348,7 @@ Hypothesis Cf : forall k p, mem k mf = true -> In p (nrparents k) -> mem p mf = 
 Hypothesis If : inv t mf.
 Let ms0 := finalize mf.
 Let ms := map tar_member ms0.
-Let uops := script_ops (i_script i).
+Let uops := user_script i.
 Let pars := member_parents ms.
 
 Lemma has_mem k : has ms k = true <-> mem k mf = true.
@@ -440,6 +461,37 @@ Proof.
     unfold same_inode. rewrite (inv_ino _ _ If _ _ F1). rewrite <- Er. rewrite (inv_ino _ _ If _ _ F2). apply N.eqb_refl.
   - destruct e; cbn in Ke; try discriminate Ke. destruct Ke; discriminate.
 Qed.
+
+(* 4b. src= entries are regular files of their own *)
+Lemma c_src_gen post : forall pre, uops = pre ++ post -> s_src t ms post = true.
+Proof.
+  induction post as [|o r IH]; intros pre E; cbn [s_src]; [reflexivity|].
+  rewrite (IH (pre ++ [o])) by (rewrite <- app_assoc; exact E). rewrite andb_true_r.
+  destruct o as [li| | |]; auto. destruct (li_src li) as [s|] eqn:Es; [|reflexivity]. cbv zeta.
+  destruct (omits r (li_name li)) eqn:Eo; [reflexivity|]. destruct (adds t r (li_name li)) eqn:Ea; [reflexivity|].
+  destruct (src_same t s (li_name li)); [reflexivity|].
+  assert (Hin : In (OAdd li) uops) by (rewrite E; apply in_or_app; right; now left).
+  assert (Hw : li_wild li = false).
+  { destruct (li_wild li) eqn:Ew; [|reflexivity]. exfalso.
+    fold uops in E9. rewrite E in E9. apply run_ops_app in E9 as (ma & _ & H9). cbn [run_ops run_op] in H9.
+    unfold add_files in H9. rewrite Es, Ew in H9. discriminate H9. }
+  assert (Hc : abs_cleanb (li_name li) = true) by (apply (sf_add _ (wfa_script _ F)); assumption).
+  assert (Hf : find (li_name li) mf = Some (EFile None)).
+  { apply (src_final i m7 m9 E9 pre li s r E Es).
+    - apply omits_none_of; [now apply abs_clean_not_root|exact Eo].
+    - intros H. change (ops_name t r (li_name li)) in H. apply adds_spec in H. rewrite H in Ea. discriminate Ea. }
+  unfold src_member_ok. apply forallb_forall. intros x Hx.
+  unfold ms in Hx. apply in_map_iff in Hx as (x0 & <- & Hx0). rewrite key_tar. cbn [tar_member m_kind m_link].
+  destruct (finalize_nogroup mf _ Hf x0 Hx0) as [K1 K2]. apply andb_true_iff. split.
+  - destruct (feq (m_name x0) (li_name li)) eqn:En; [|reflexivity]. apply feq_true in En. now rewrite (K1 En).
+  - destruct (m_kind x0) eqn:Kx; try reflexivity. cbn [mkind_beq]. apply negb_true_iff. apply feq_false.
+    destruct (K2 eq_refl) as [K2a K2b]. unfold tar_link.
+    assert (Gl : good (m_link x0)) by (rewrite Forall_forall in Gf; apply Gf; now apply mem_In).
+    destruct (good_abs _ Gl) as (r0 & Er0). rewrite Er0. cbn [is_absb]. change c_sl with sl. rewrite Ascii.eqb_refl.
+    intros H. injection H as H. rewrite Er0 in K2a. contradiction.
+Qed.
+Lemma c_src : s_src t ms uops = true.
+Proof. apply (c_src_gen uops []). reflexivity. Qed.
 
 (* 5. package files *)
 Lemma c_pkgfiles : s_pkgfiles i uops ms = true.
@@ -671,6 +723,7 @@ Qed.
 (* everything together *)
 Lemma c_all :
   s_relative ms = true /\ s_unique ms = true /\ s_parents [] (map key ms) = true /\ s_hardlinks t [] ms = true
+  /\ s_src t ms uops = true
   /\ list_beq feq (map m_name ms0) (map key ms) = true
   /\ s_pkgfiles i uops ms = true /\ s_vdb_in i uops ms = true
   /\ forallb (fun n => if negb (omits uops n) then has ms n else true) stdd = true
@@ -686,7 +739,7 @@ Lemma c_all :
   /\ s_sourced_gen (sources_gen mops sops statn i uops) ms = true.
 Proof.
   repeat split.
-  - exact c_relative. - exact c_unique. - exact c_parents. - exact c_hardlinks.
+  - exact c_relative. - exact c_unique. - exact c_parents. - exact c_hardlinks. - exact c_src.
   - unfold ms. rewrite map_key_tar. apply list_beq_feq_refl.
   - exact c_pkgfiles. - exact c_vdb_in. - exact c_std_dirs. - exact c_static_in. - exact c_user.
   - exact c_unselected_member. - exact c_omit. - exact c_vdb_out. - exact c_static_out. - exact c_sourced.
@@ -717,14 +770,14 @@ Proof.
      (op_names stddir_ops) eq_refl k_stddir_plain k_devsetup_plain
      k_magic_avoid_vdb k_stddir_avoid_vdb k_magic_avoid_dev k_stddir_avoid_dev) as ALL.
   clear - ALL.
-  destruct ALL as (A1 & A2 & A3 & A4 & A5 & A6 & A7 & A8 & A9 & A10 & A11 & A12 & A13 & A14 & A15).
+  destruct ALL as (A1 & A2 & A3 & A4 & A4b & A5 & A6 & A7 & A8 & A9 & A10 & A11 & A12 & A13 & A14 & A15).
   unfold spec_ok. cbv zeta. unfold user_ops.
-  rewrite A1, A2, A3, A4, A5, A6, A7. cbn [andb].
+  rewrite A1, A2, A3, A4, A4b, A5, A6, A7. cbn [andb].
   unfold s_std_dirs. rewrite A8. cbn [andb].
-  assert (B9 : s_static_in (c_in c) (script_ops (i_script (c_in c))) (map tar_member (finalize (add_missing_dirs m9))) = true).
+  assert (B9 : s_static_in (c_in c) (user_script (c_in c)) (map tar_member (finalize (add_missing_dirs m9))) = true).
   { unfold s_static_in. destruct (i_emptydev (c_in c)); [reflexivity|]. now apply A9. }
   rewrite B9, A10. cbn [andb].
-  assert (B11 : s_unselected (c_in c) (script_ops (i_script (c_in c))) (map tar_member (finalize (add_missing_dirs m9))) = true).
+  assert (B11 : s_unselected (c_in c) (user_script (c_in c)) (map tar_member (finalize (add_missing_dirs m9))) = true).
   { unfold s_unselected. cbv zeta. apply forallb_forall. intros x Hx.
     destruct (m_kind x) eqn:Kx; try reflexivity.
     - destruct (memb (key x) _) eqn:M1; [|reflexivity]. destruct (memb (key x) (flat_map contents_names (selected _))) eqn:M2; [reflexivity|].
@@ -734,7 +787,7 @@ Proof.
     - destruct (memb (key x) _) eqn:M1; [|reflexivity]. destruct (memb (key x) (flat_map contents_names (selected _))) eqn:M2; [reflexivity|].
       cbn [negb]. unfold std_named. apply (A11 x Hx); auto. }
   rewrite B11, A12, A13. cbn [andb].
-  assert (B14 : s_static_out (c_in c) (script_ops (i_script (c_in c))) (member_parents (map tar_member (finalize (add_missing_dirs m9))))
+  assert (B14 : s_static_out (c_in c) (user_script (c_in c)) (member_parents (map tar_member (finalize (add_missing_dirs m9))))
                   (map tar_member (finalize (add_missing_dirs m9))) = true).
   { unfold s_static_out. destruct (i_emptydev (c_in c)); [now apply A14|reflexivity]. }
   rewrite B14. cbn [andb]. exact A15.
@@ -759,8 +812,8 @@ Qed.
 (* the premises of the omit theorems are met by ordinary lines *)
 Lemma ex_omit_facts :
   script_ops [bs "dir /opt/x mod=0755"; bs "# c"; bs "omit ""/usr/bin/ba*"""; bs "tbd /usr/bin/bar absent=skip"]
-  = ([OAdd (MkLI TDir (bs "/opt/x") false false false false)] ++ OOmit (bs "/usr/bin/ba*") true
-    :: [OAdd (MkLI TTbd (bs "/usr/bin/bar") false false false true)])%list
+  = ([OAdd (MkLI TDir (bs "/opt/x") false false false false None)] ++ OOmit (bs "/usr/bin/ba*") true
+    :: [OAdd (MkLI TTbd (bs "/usr/bin/bar") false false false true None)])%list
   /\ omit_hit (bs "/usr/bin/ba*") true (bs "/usr/bin/bar") = true
   /\ omit_hit (bs "/usr/bin/ba*") true (bs "/usr/bin/sub/bar") = false.
 Proof. vm_compute. auto. Qed.
